@@ -6,7 +6,7 @@
     PARTIAL: the round-trip theorem parse(print c) = abs c is proved here for the stream-selector
     sub-grammar with an unbounded number of matchers; for the rest of the grammar it is established by the
     correspondence against generator-computed expectations, not by a theorem (see DESIGN.md). *)
-From LogQLV Require Import Base.Bytes Base.FloatX Model.Tables Model.Syntax Model.Parser Proofs.ParserP Proofs.PipelineP Proofs.LogRangeP Proofs.QueryP.
+From LogQLV Require Import Base.Bytes Base.FloatX Model.Tables Model.Syntax Model.Parser Proofs.ParserP Proofs.PipelineP Proofs.LogRangeP Proofs.QueryP Proofs.UnwrapP.
 
 (** every selector {l1 op1 "v1", ..., ln opn "vn"} with any number of matchers, all four operators, any value bytes (regex
     values that compile) and any label names -- whether the lexer classifies a name as Ident or as a keyword (by, on, json,
@@ -124,6 +124,33 @@ Theorem vec_agg_parse :
   parse_tokens (print_vec_agg anch re_names cls v g o sel sts rtxt rns off) = Parsed (EVecAgg v (range_expr o sel sts rns off) None (Some g)).
 Proof. exact vec_agg_parse_lemma. Qed.
 Print Assumptions vec_agg_parse.
+
+(** ... and every range aggregation over unwrapped values
+      op({selector} stage ... stage | unwrap l [range] offset d)        op(... | unwrap bytes(l) [range]) by (a, b)
+    (unwrap with or without a conversion function, optional grouping after the operand; op and grouping as validate()
+    admits them: [range_validate o None g true]) denotes exactly that operation, unwrap, range, offset and grouping.
+    [chain_mid] is [chain_ok] without the end-of-pipeline condition: the pipeline stops in front of `| unwrap`. *)
+Theorem unwrap_agg_parse :
+  forall (anch : bytes -> bool) (re_names : bytes -> option (list bytes)) (cls : bytes -> ttype) (o : rangeop)
+         (sel : list matcher) (sts : list stage) (cv l rtxt : bytes) (rns : Z) (off : option (bytes * Z)) (g : option grouping),
+  range_validate o None g true = true ->
+  Forall (wf_lmatcher anch cls) sel -> Forall (fun m => ttype_eqb (cls (m_label m)) TCloseBrace = false) sel ->
+  chain_mid anch re_names sts (unwrap_tail cv l rtxt rns off (plain TCloseParen [] :: print_opt_grouping g)) ->
+  wf_unwrap cv ->
+  parse_tokens (print_unwrap_agg anch re_names cls o sel sts cv l rtxt rns off g) = Parsed (ERange o (unwrap_lr sel sts cv l rns off) None g).
+Proof. exact unwrap_agg_parse_lemma. Qed.
+Print Assumptions unwrap_agg_parse.
+
+Example unwrap_agg_example :
+  let anch := fun _ : bytes => true in
+  let rn := fun _ : bytes => Some (@nil bytes) in
+  let sel := [ {| m_label := ["a"%byte]; m_op := OpEq; m_value := ["v"%byte] |} ] in
+  let g := Some {| g_labels := [["h"%byte]]; g_without := false |} in
+  let cv := ["b"; "y"; "t"; "e"; "s"]%byte in
+  range_validate RangeOpAvg None g true = true /\ wf_unwrap cv /\
+  parse_tokens (print_unwrap_agg anch rn (fun _ => TIdent) RangeOpAvg sel [SLogfmt [] []] cv ["n"%byte] ["1"%byte; "m"%byte] 60000000000 None g) =
+    Parsed (ERange RangeOpAvg (unwrap_lr sel [SLogfmt [] []] cv ["n"%byte] 60000000000 None) None g).
+Proof. split; [vm_compute; reflexivity|]. split; [right; vm_compute; discriminate|vm_compute; reflexivity]. Qed.
 
 Example range_agg_example :
   let anch := fun _ : bytes => true in
